@@ -47,7 +47,7 @@ CLAIMS = {
          "Trusted: zero value of each exported enumeration field is its unknown/invalid constant; v2 IsEmpty() on nil receivers is outside the property's observation list.",
          "DESIGN.md section 6, C12"),
  "C09": ("deterministic sweeps + rapid PBT vs reference token map; permutation / X-vs-omitted metamorphic twins",
-         "Every exported field of every decoded object (read by reflection on the field name) must be the exported constant of the value written for that metric; unwritten v3 optional metrics must be Not Defined, v2 groups must report IsEmpty() correctly; the canonical spelled-out twin and the canonical defined-only twin of every v3 vector must give an identical snapshot (fields, scores, severities, encodings at every level). Sweeps: every metric x code x token position, all 2^14 optional-metric subsets, block moves and group orders, every v2 metric x code x group shape (thorough: all 8! base-token orders of 4 vectors); rapid 320k / 3M vectors.",
+         "Every exported field of every decoded object (read by reflection on the field name) must be the exported constant of the value written for that metric; unwritten v3 optional metrics must be Not Defined, v2 groups must report IsEmpty() correctly; the canonical spelled-out twin and the canonical defined-only twin of every v3 vector must give an identical snapshot (fields, scores, severities, encodings at every level). Sweeps: every metric x code x token position, all 2^14 optional-metric subsets, block moves and group orders, every v2 metric x code x group shape (thorough: all 8! base-token orders of 4 vectors); rapid 320k (C09: 200k) / 3M vectors.",
          "Trusted: reference tokenizer and the name binding of constants; the accepted-vector language itself is C07/C08's subject.",
          "DESIGN.md section 6, C09"),
  "C10": ("deterministic sweeps + rapid PBT vs reference canonical encoder; round-trip",
